@@ -240,6 +240,11 @@ def nestings(s, kind, rng):
     yield "nested3", ([[v(), [v(), lit()]], [], [[v()]]],)
     yield "tuple", ((v(), v()),)
     yield "generator", ((x for x in [v(), v(), lit()]),)
+    for k in (15, 16, 17, 18, 32, 33):
+        yield "long-list-%d" % k, ([v() for _ in range(k)],)
+    yield "long-list-16+lit", ([v() for _ in range(16)] + [lit()],)
+    yield "array2d-1x17", (A2(1, 17),)
+    yield "array2d-7x7", (A2(7, 7),)
     yield "slice-of-2d", (A2(2, 3)[:, 1:],)
     yield "list-of-2d-rows", ([A2(2, 2)[0], A2(2, 2)[1, :]],)
     yield "mixed-deep", ([A2(1, 2), [A1(1), (lit(), v())]],)
